@@ -423,20 +423,23 @@ impl Writer for UperWriter {
         slice: &[T::Type],
     ) -> Result<(), Self::Error> {
         self.write_bit_field_entry(false, true)?;
-        self.scope_stashed(|w| {
-            w.write_extensible_bit_and_length_or_err(
-                C::EXTENSIBLE,
-                C::MIN,
-                C::MAX,
-                i64::MAX as u64,
-                slice.len() as u64,
-            )?;
-
+        // as an extension addition the list is an open type, which is what read_sequence_of expects
+        self.with_buffer(|w| {
             w.scope_stashed(|w| {
-                for value in slice {
-                    T::write_value(w, value)?;
-                }
-                Ok(())
+                w.write_extensible_bit_and_length_or_err(
+                    C::EXTENSIBLE,
+                    C::MIN,
+                    C::MAX,
+                    i64::MAX as u64,
+                    slice.len() as u64,
+                )?;
+
+                w.scope_stashed(|w| {
+                    for value in slice {
+                        T::write_value(w, value)?;
+                    }
+                    Ok(())
+                })
             })
         })
     }
